@@ -172,6 +172,25 @@ def execute(prog, model=None):
             "calls": calls, "model": m, "cut_refs": cut_refs}
 
 
+def independent_cuts(prog, ks):
+    """Normalised cut of every candidate k recomputed outside the candidate loop: a fresh model
+    restricted to the single candidate k (min_k = max_k = k) fitted on the same data; the value its
+    own (recorded, reference-checked) criterion reports."""
+    out = []
+    for k in ks:
+        p1 = dict(prog, min_k=int(k), max_k=int(k))
+        p1.pop("script", None)
+        try:
+            ex = execute(p1)
+            r = (ex.get("cut_refs") or [None])[0]
+            out.append(r if r is not None else ex["values"][0])
+        except Horizon:
+            raise
+        except Exception:
+            out.append(None)
+    return out
+
+
 def independent_accuracies(prog):
     """Validation accuracy of every candidate k, recomputed outside the training loop: a fresh
     k-NN subgraph per k (arcs, densities, clustering), predictions on the validation set, and the
@@ -227,6 +246,15 @@ def judge(prog, ex):
             if r is not None and abs(r - v) > 1e-9 * max(1.0, abs(r)):
                 return ("candidate k=%d was scored %r by the training loop, but the normalised cut of the "
                         "clustering built with k=%d is %r" % (kk, v, kk, r)), "criterion is not the normalised cut"
+        if prog.get("min_k") != prog.get("max_k") and not prog.get("no_cross"):
+            # ... and the clustering a candidate is scored on must be the clustering of a model built with
+            # that k alone
+            solo = independent_cuts(prog, ev)
+            for kk, v, r in zip(ev, vals, solo):
+                if r is not None and abs(r - v) > 1e-9 * max(1.0, abs(r)):
+                    return ("candidate k=%d was scored %r inside the range %d..%d, but a model restricted to "
+                            "k=%d alone has normalised cut %r" % (kk, v, prog["min_k"], prog["max_k"], kk, r)), \
+                        "candidate not scored on the clustering of its own k"
     lo = prog["min_k"] if unsup else 1
     hi = prog["max_k"]
     cand = list(range(lo, hi + 1))
